@@ -423,6 +423,9 @@ def run(w: World, rep: Report):
     depend(rep, w, 'rules_c07', ('C07.R4c',), 'C01.TD7',
            'the call budget is one budget for the whole list (documented: enforced across the total execution): each '
            'further tape continues from the count of the tape that ran last (C07.R4c re-evaluated)', floor=1)
+    depend(rep, w, 'rules_c06', ('C06.R1', 'C06.R1b'), 'C01.TD1',
+           'a script ends at its own explicit RETURN wherever it is issued: every construct that runs a sub-tape propagates '
+           'or consumes the return flag as specified, with nothing that can raise in between (C06.R1/R1b re-evaluated)', floor=14)
     rep.explanation = (
         'Decides the structural clauses of C01: (R1) typestate proof that the RETURN control '
         'flag is clear when each later script starts, so state left by an earlier script '
